@@ -81,6 +81,7 @@ impl WaitGroup {
       let notified = self.notify_on_zero.notified();
       tokio::pin!(notified);
       notified.as_mut().enable();
+      crate::verif_point!("wg.wait.check");
 
       // Acquire load synchronizes with the AcqRel fetch_sub in done().
       if self.count.load(Ordering::Acquire) == 0 {
@@ -88,6 +89,7 @@ impl WaitGroup {
         return;
       }
 
+      crate::verif_point!("wg.wait.await");
       notified.await;
       // Loop: re-check the count (another add() may have raised it again).
     }
